@@ -20,6 +20,11 @@
 //	  x            Client.Close()   (rc mode: calls started afterwards are ignored, they would use a new pool;
 //	               rc mode also maps maxIdle 0 to the default 32, as WithClientMaxIdleConns does)
 //
+//	storm <rounds> <fails> <workers> <per> <kb>   (uncontrolled real concurrency, real remoteclient) each round: <fails>
+//	  RemoteAsk calls that end in an error (the server closes the connection), then <workers> goroutines x <per>
+//	  RemoteAsk calls with pairwise distinct payloads of <kb> KiB, answered at once by the echo server; counts the
+//	  asks that returned WITHOUT error a reply that is not the echo of their own request.  output: wrong=<n>
+//
 // output: one token per call `k@c<conn>=ok:<reply ids>` | `k@c<conn>=err` (conn `-` if the server never
 // saw the call), then `idle=<n> conns=<dialled>`
 package main
@@ -92,6 +97,12 @@ func connID(cs *caseState, conn inet.Connection) int {
 // its connection is closed.
 func park(conn inet.Connection, val string) (byte, bool) {
 	cs := cur.Load()
+	if strings.HasPrefix(val, "storm/S") {
+		return '+', false // storm traffic: echo at once
+	}
+	if strings.HasPrefix(val, "storm/F") {
+		return 'e', false // storm fault: the handler fails, the server closes the connection
+	}
 	no, id, ok := strings.Cut(val, "/")
 	if cs == nil || !ok || no != strconv.FormatInt(caseNo.Load(), 10) {
 		return 'e', false
@@ -410,8 +421,65 @@ func (c *ctl) checkStall() {
 	}
 }
 
+func handleStorm(f []string) string {
+	if srvError != "" {
+		return "server-error " + srvError
+	}
+	var v [5]int
+	for i := range v {
+		n, err := strconv.Atoi(f[i+1])
+		if err != nil || n < 0 {
+			return "bad-case"
+		}
+		v[i] = n
+	}
+	rounds, fails, workers, per, kb := v[0], v[1], v[2], v[3], v[4]
+	if rounds < 1 || rounds > 200 || fails > 256 || workers < 1 || workers > 64 || per < 1 || per > 1000 || kb > 256 {
+		return "bad-case"
+	}
+	cur.Store(nil)
+	cl := remoteclient.NewClient()
+	defer cl.Close()
+	from := address.New("asker", "sys", srvHost, srvPort)
+	to := address.New("target", "sys", srvHost, srvPort)
+	var wrong, ok atomic.Int64
+	for r := 0; r < rounds; r++ {
+		for i := 0; i < fails; i++ {
+			_, _ = cl.RemoteAsk(context.Background(), from, to, wrapperspb.String(fmt.Sprintf("storm/F%d.%d", r, i)+strings.Repeat("f", kb*1024)), 5*time.Second)
+		}
+		var wg sync.WaitGroup
+		for w := 0; w < workers; w++ {
+			wg.Add(1)
+			go func(w int) {
+				defer wg.Done()
+				for i := 0; i < per; i++ {
+					tag := fmt.Sprintf("storm/S%d.%d.%d-", r, w, i)
+					want := tag + strings.Repeat(string(rune('a'+(w+i)%26)), kb*1024)
+					resp, err := cl.RemoteAsk(context.Background(), from, to, wrapperspb.String(want), 10*time.Second)
+					if err != nil {
+						continue
+					}
+					if v, isStr := resp.(*wrapperspb.StringValue); !isStr || v.GetValue() != want {
+						wrong.Add(1)
+					} else {
+						ok.Add(1)
+					}
+				}
+			}(w)
+		}
+		wg.Wait()
+	}
+	if ok.Load() == 0 && wrong.Load() == 0 {
+		return "HARNESS-FAIL no ask completed"
+	}
+	return fmt.Sprintf("wrong=%d", wrong.Load())
+}
+
 func handle(line string) string {
 	f := vlib.Fields(line)
+	if len(f) == 6 && f[0] == "storm" {
+		return handleStorm(f)
+	}
 	if len(f) < 4 || f[0] != "pool" || (f[1] != "inet" && f[1] != "rc") {
 		return "bad-case"
 	}
